@@ -1132,7 +1132,8 @@ def check_C18(tier, seed, replay):
     # "+wide": the same histories with the prefixes spelled in multi-byte characters
     # "+crlf": the two valid grammars differ in nothing but their line endings, one of which lies inside a literal
     # "+dots": the grammar file is called gram.mar.v2.ebnf (and has a sibling gram.ebnf in directory mode)
-    modes = ["file", "dest", "dir", "file+wide", "dirlink", "file+crlf", "file+dots", "dir+dots"]
+    # "+oldsrc": every edited grammar arrives with a modification time older than the destination's
+    modes = ["file", "dest", "dir", "file+wide", "dirlink", "file+crlf", "file+dots", "dir+dots", "file+oldsrc"]
     d = vlib.famdir("buildscript", tier)
     cf = os.path.join(d, "histories.tsv")
     lines = []
@@ -1143,6 +1144,8 @@ def check_C18(tier, seed, replay):
             if m == "file+crlf" and ("e:g" not in hl or hl.count("r") < 2 or "p:" in hl):
                 continue
             if m.endswith("+dots") and (hl.count("r") < 2 or "p:" in hl):
+                continue
+            if m == "file+oldsrc" and ("e:" not in hl or hl.count("r") < 2 or "p:" in hl):
                 continue
             if m == "dirlink" and ("p:" in hl or hl.count("r") < 2):
                 continue      # (the symbolic-link variant: histories with two or more runs, default prefix)
